@@ -119,7 +119,7 @@ def fill(claim, na):
           '(legs/_labels lists) or what was re-bound to a fresh value on every path before; '
           'operands are not passed to workers that write that parameter; no in-place store '
           'through X.charges / X.slices anywhere in the package; functions with an inplace flag '
-          'alias self only on the inplace branch; MPS/MPO constructors store copies. '
+          'alias self only on the inplace branch; MPS/MPO constructors store copies; tensors borrowed from a network (get_B/get_W without copy, lists of them, astype(copy=False)) are not written in place before a copy; public mps.py/mpo.py functions do not call in-place Array methods on tensors received as parameters. '
           'Observational equality of values is not needed (no write, no change) and not decided; '
           'tensors reaching an in-place call through containers/callbacks in the algorithms are '
           'not tracked.',
@@ -151,10 +151,12 @@ def fill(claim, na):
           'API placing named operators on sites (expectation_value_term, correlation_function, '
           'term_correlation_function_*, apply_local_op, term handlers, order_combine_term) reaches '
           'the Jordan-Wigner decision with the documented branch structure; TermList does not '
-          'write into a strength array it may share. Commutators/anticommutators as dense '
+          'write into a strength array it may share; calls that re-compute the operators of one term '
+          'pass the same JW_from_right value (reaching definitions); every local of site.py/terms.py '
+          'is bound on every path before it is read. Commutators/anticommutators as dense '
           'matrices and the documented operator tables are not decided.',
-          'trusts python ast; several registry checks match normalised statements of add_op / '
-          'remove_op / rename_op (listed in sa/rules/c12.py)', 'C12')
+          'trusts python ast; registry effects are extracted from the normal form (temporaries '
+          'inlined), decision tables and guards are read off the block structure', 'C12')
     claim('C01', 'agreement of per-axis carriers (legs / labels / block-index columns / blocks) '
           'by index-set extraction + documented label propagation + operand-side (family) '
           'coherence in the blockwise merge',
@@ -179,7 +181,9 @@ def fill(claim, na):
           'and vR with the right singular values by the change of the respective exponent; '
           'tensors rebuilt through get_B(form=F) come with self.form = F or form=None; table of '
           'forms (A,B,C,G,Th); structure of canonical_form_finite, convert_form, get_theta, '
-          'entanglement_entropy. Nothing about the represented vector, Schmidt values or '
+          'entanglement_entropy; accumulated segment boundary matrices are composed with the old '
+          'matrix as the outer operand; destination index lists from map_incoming_flat are '
+          'scattered or inverted, never gathered with. Nothing about the represented vector, Schmidt values or '
           'entropies is decided.', 'flows through containers, callbacks or arithmetic are not '
           'tracked; several structure checks match normalised statements', 'C07')
     claim('C09', 'coupled-update / read-after-replace ordering of the per-site lists + form-flow '
@@ -224,9 +228,11 @@ def fill(claim, na):
           'defines (anything else falls through __getattr__), adjoint() conjugates scalars and '
           'adjoints operators, P H P projects before and after on a copy; E_shift is added inside '
           'an orthogonal projection and subtracted from the returned energy; Arnoldi insists on a '
-          'full cache; Gram-Schmidt structure. Rayleigh quotients, residuals and convergence are '
-          'not decided.', 'several structure checks match normalised statements of the current '
-          'implementation', 'C16')
+          'full cache; the Krylov cache is emptied between runs and vectors read back from it are '
+          'never updated in place; the energy shift is removed on every exit that returns the '
+          'energy; Gram-Schmidt structure. Rayleigh quotients, residuals and convergence are '
+          'not decided.', 'loop bodies are compared after canonicalising the work vector, loop '
+          'index and coefficient roles; index expressions as exact polynomials', 'C16')
     claim('C19', 'closed computation on literal tables: whitelisted constant folder over the AST '
           'of the lattice constructors + override-pairing over the class table',
           PARTIAL + 'The clause "predefined neighbour lists match the Euclidean distances of the '
@@ -237,7 +243,10 @@ def fill(claim, na):
           'duplicates, unit-cell indices in range (exhaustive). Inverse-pair methods '
           '(mps2lat_idx/lat2mps_idx, possible_couplings/possible_multi_couplings, '
           'save_hdf5/from_hdf5, ...) are overridden together in every subclass; ordering() falls '
-          'through to the parent; the order setter recomputes the inverse permutation. '
+          'through to the parent; the order setter recomputes the inverse permutation; a mask derived '
+          'from coordinate arrays is not applied to them after an in-place update (possible_'
+          'couplings boundary filter); species/unit-cell index combinations use the radix of '
+          'their minor index. '
           'Bijectivity of the index maps and exactness of possible_couplings over all orderings '
           'and boundary conditions are not decided.',
           'NLegLadder excluded (topological neighbours by documentation); derived lattices '
@@ -251,7 +260,10 @@ def fill(claim, na):
           'compare the flag, dagger() and make_U_I/II treat it explicitly; identity indices from '
           'get_IdL slice wL legs and those from get_IdR wR legs; truncation errors of apply / '
           'apply_zipup / compress reach the returned value; apply() dispatches every documented '
-          'compression method. Operator values and the scaling of propagator errors with t are '
+          'compression method; the range of a sum is unknown as soon as one summand has unknown '
+          'range (decision table); raw max_range is not read next to its sanitised copy; stored '
+          'identity indices are reduced modulo the bond dimension before equality tests; inner '
+          'range limits are not narrowed across outer iterations. Operator values and the scaling of propagator errors with t are '
           'not decided.', 'name-based resolution of self-calls inside MPO', 'C11')
     claim('C13', 'protocol agreement per concrete Sweep subclass (MRO-resolved hooks, returned '
           'dict keys vs hook parameters) + symbolic list lengths (polynomials in L, n) + '
@@ -265,7 +277,8 @@ def fill(claim, na):
           'followed in the same function by the wrap Sum(H, H.adjoint()) under explicit_plus_hc '
           'or an assertion on the flag; environment index pairing (del_LP(i_R)/del_RP(i_L), '
           'update_LP from U / update_RP from VH), hook order in Sweep.sweep, orthogonal projection '
-          'outermost, mixer weights. Energies, convergence and canonical form of the result are '
+          'outermost, mixer weights; block insertion into a zeros_like tensor is preceded by the '
+          'dtype promotion with the data source. Energies, convergence and canonical form of the result are '
           'numerical and not decided.', 'hook dictionaries assembled through containers other '
           'than dict literals / update_data[...] stores are treated as opaque (not flagged)', 'C13')
     na('C08', 'every clause quantifies over numerical values (expectation values, overlaps, Born '
